@@ -37,6 +37,17 @@ def gen_cases(tier, seed):
             c['kind'] = 'sim'
             c['full'] = j % 2 == 0
             c['ic_defaultdict'] = (j % 4 == 3)
+            g = c['graph']
+            if not g.get('directed') and not g.get('big') and g['n'] >= 2 and r.random() < 0.2:
+                # self-loops (nx.Graph(nx.configuration_model(...)) keeps them): the caller's graph keeps them too
+                g = dict(g)
+                loops = [[i, i] for i in r.sample(range(g['n']), r.randint(1, 2))]
+                g['edges'] = [list(e) for e in g['edges']] + loops
+                if g.get('ew'):
+                    g['ew'] = {a: list(ws) + [1.0] * len(loops) for a, ws in g['ew'].items()}
+                c['graph'] = g
+                c.pop('prehistory', None)
+                c['selfloops'] = True
             out.append(c)
     for name in odereg.ALL:
         m = per if name not in odereg.HEAVY else max(4, per // 3)
@@ -153,6 +164,8 @@ def run_case(case):
             kw['initial_recovereds'] = ir + [kw['initial_infecteds'][-1]]
             overlap = True
             bump(res, 'overlapping_initial_sets_runs')
+        if case.get('selfloops'):
+            bump(res, 'graphs_with_self_loops')
         mode = 'full' if call.full else 'arrays'
     elif kind == 'ode':
         call = odereg.build(case)
